@@ -5,7 +5,9 @@ import (
 	"net"
 	"net/http"
 	"net/http/httptest"
+	"strconv"
 	"strings"
+	"syscall"
 	"time"
 
 	"github.com/vicanso/elton"
@@ -28,11 +30,48 @@ type upSrv struct {
 	srv    *httptest.Server
 	backup bool
 	up     bool
+	hold   int // fd of a bound, non-listening socket that keeps the port ours while the server is "down"
+}
+
+// reserve the port without listening: connections are refused (the server is down) and no other process on the
+// machine can take the port in the meantime — a foreign listener there would look like a healthy server
+func (u *upSrv) reserve() {
+	u.hold = -1
+	host, portStr, err := net.SplitHostPort(u.addr)
+	if err != nil {
+		return
+	}
+	port, _ := strconv.Atoi(portStr)
+	ip := net.ParseIP(host).To4()
+	if ip == nil {
+		return
+	}
+	fd, err := syscall.Socket(syscall.AF_INET, syscall.SOCK_STREAM, 0)
+	if err != nil {
+		return
+	}
+	_ = syscall.SetsockoptInt(fd, syscall.SOL_SOCKET, syscall.SO_REUSEADDR, 1)
+	sa := &syscall.SockaddrInet4{Port: port}
+	copy(sa.Addr[:], ip)
+	if err := syscall.Bind(fd, sa); err != nil {
+		syscall.Close(fd)
+		return
+	}
+	u.hold = fd
+}
+
+func (u *upSrv) release() {
+	if u.hold > 0 {
+		syscall.Close(u.hold)
+	}
+	u.hold = -1
 }
 
 func (u *upSrv) start() {
+	u.release()
 	ln, err := net.Listen("tcp", u.addr)
 	if err != nil {
+		u.reserve()
 		return
 	}
 	s := httptest.NewUnstartedServer(http.HandlerFunc(func(w http.ResponseWriter, r *http.Request) {
@@ -49,6 +88,7 @@ func (u *upSrv) stop() {
 	if u.srv != nil {
 		u.srv.Close()
 		u.srv = nil
+		u.reserve()
 	}
 	u.up = false
 }
@@ -64,9 +104,11 @@ func suiteUpsel(r *rng, n int) {
 			ln, _ := net.Listen("tcp", "127.0.0.1:0")
 			addr := ln.Addr().String()
 			ln.Close()
-			u := &upSrv{idx: j, addr: addr, backup: cr.chance(35)}
+			u := &upSrv{idx: j, addr: addr, backup: cr.chance(35), hold: -1}
 			if cr.chance(65) {
 				u.start()
+			} else {
+				u.reserve()
 			}
 			servers = append(servers, u)
 			cfgs = append(cfgs, config.UpstreamServerConfig{Addr: "http://" + addr, Backup: u.backup})
@@ -149,6 +191,7 @@ func suiteUpsel(r *rng, n int) {
 		upstream.Reset(nil)
 		for _, u := range servers {
 			u.stop()
+			u.release()
 		}
 	}
 }
